@@ -36,6 +36,20 @@ CHECKS = {
             "call order, and the three scope predicates as iff against their declarative reading - for all lints, objects, configurations and bodies. Tied to the code by the product of life-cycle dimensions with "
             "instrumented mocks, by every registered lint x corpus objects fed with direct calls, and by the scope predicates on corpus + generated EKU/policy/SAN combinations.",
             "DESIGN.md 5/C04", ""),
+    "C07": (True, "Coq theorem: any sub-selection/filter of a registry yields the same entry per selected lint and monotone flags + differential filtered-vs-full runs + in-Coq correspondence on filtered mock registries",
+            "Proof: for every registry satisfying the registration invariant with globally unique names, every FilterOptions and every object, the filtered run returns, for each selected lint, exactly the entry "
+            "of the full run and nothing for the others, and each presence flag of the filtered run implies the full run's (c07_filter_independent, via c08_exact and the result-set spec). In the model bodies are functions "
+            "of (instance, object), so independence of *hidden state* is the frame condition studied under C05; here it is explored by random filters and singleton registries x corpus objects on the real registry.",
+            "DESIGN.md 5/C07", "That real bodies keep no state between lints is explored (and constrained under C05), not proved."),
+    "C08": (True, "Coq theorems filter_exact / filter_outcome over the registry model (all registries, all options, any regexp oracle) + in-Coq correspondence over the real 377-name registry",
+            "Proof: Filter returns precisely the lints of each kind satisfying the five documented clauses (names compared after trimming), as the same lint values, in sorted order, with the configuration inherited and the result "
+            "again a well-formed registry; empty options return the registry itself; the first unknown trimmed name (exclude list first) and a pattern combined with name lists are errors; otherwise a registry is returned. "
+            "The model registry is rebuilt inside Coq from the registration order dumped from the running build and random FilterOptions are evaluated on both sides.",
+            "DESIGN.md 5/C08", "regexp is an oracle (Go's verdict per name is passed as a bitmap)."),
+    "C12": (True, "Coq invariant by induction over registration histories + kernel-checked data obligations over the registry dumped from the running build and a source census",
+            "Proof: after any sequence of (successful or failed) registrations of any kind the redundant lookup tables agree (c12_register_inv); data obligations re-checked each run by vm_compute: registered count = census count, "
+            "sorted census = Names(), uniqueness across kinds, sortedness, per-lint well-formedness, every lint package blank-imported, dumped tables = model tables.",
+            "DESIGN.md 5/C12", "The census is syntactic (go/parser over v3/lints, build constraints honoured)."),
 }
 
 REASON_PENDING = "check not built yet in this session; planned (see DESIGN.md section 5)"
